@@ -128,6 +128,18 @@ pub fn replay(e: &Engine, path: &str) -> i32 {
                 Ok(())
             }
         }
+        "wide-names" => {
+            let t = r["text"].as_str().unwrap_or("");
+            let names = mc_desc::emit::wide_names();
+            let want = names.iter().position(|n| n == t);
+            let got = crate::names::wide_probe().map(|p| p(t));
+            println!("string {t:?}: selects {got:?}, expected {want:?}");
+            match got {
+                Some(g) if g == want => Ok(()),
+                Some(g) => Err(format!("selects variant #{g:?}, expected #{want:?}")),
+                None => Err("MACHINERY: probe not registered".into()),
+            }
+        }
         "history" => crate::history::replay_history(e, r, &|x| root_of(e, x)),
         "builtin-totality" => {
             let ri = root_of(e, r);
@@ -151,12 +163,13 @@ pub fn replay(e: &Engine, path: &str) -> i32 {
             let ri = root_of(e, r);
             let doc = doc_from_tagged(&r["payload"]);
             let query = r["query"].as_bool().unwrap_or(false);
+            let src = src_of(r["source"].as_str().unwrap_or("Json"));
             let entry = &e.entries[ri];
-            let keep = execute(entry, Src::Json, &doc, &Script::keep_going());
+            let keep = execute(entry, src, &doc, &Script::keep_going());
             let first = keep.events.iter().find(|ev| ev.report_id().is_some());
             let run = if query { entry.run_query.unwrap() } else { entry.run_json.unwrap() };
             begin(&Script::keep_going());
-            let got = std::panic::catch_unwind(|| run(Src::Json, &doc));
+            let got = std::panic::catch_unwind(|| run(src, &doc));
             let _ = end();
             println!("payload: {}", doc.text());
             println!("first keep-going report: {first:?}");
